@@ -603,7 +603,7 @@ func checkCmd(opts *RunOpts, args []string) int {
 	}
 	if run.FRan {
 		_, vl, cv := boundedListVerdict(opts, prop, known, "bounded.faults.handler_positions", "none.txt", run.FFailing, run.FTotal,
-			"machine with B active, Set{A} (BExit, AEnter, AnyEnter, BEnd, AState, AnyState), two handler bindings, a panic (error / string) or a stall past HandlerTimeout injected at every (handler, binding)",
+			"machine with B active, Set{A} (BExit, AEnter, AnyEnter, BEnd, AState, AnyState), two handler bindings, a panic (error / string) or a stall past HandlerTimeout injected once at every (handler, binding) of that mutation; for the global handlers also repeatedly (the fault recurs inside the Exception transition); panics under PanicToErr / PanicToErrState",
 			"", "break fault containment (call returns Canceled, Exception carries the panic message / the timeout is reported, negotiation faults change nothing, final faults roll back the unfinished handlers, tick parity holds, a probe mutation executes afterwards)", nil)
 		if vl != "" {
 			violations = append(violations, vl)
@@ -926,4 +926,12 @@ func c02ResurrectionClass(f string) bool {
 		}
 	}
 	return false
+}
+
+// keepStandin writes the generated stand-in program to $GOCV_KEEP_STANDIN (maintenance
+// only; never set by a registered command).
+func keepStandin(name, src string) {
+	if d := os.Getenv("GOCV_KEEP_STANDIN"); d != "" {
+		os.WriteFile(filepath.Join(d, name+"_main.go"), []byte(src), 0o644)
+	}
 }
